@@ -82,7 +82,34 @@ def run(ctx):
             if hits:
                 # the comparison must guard the loop body: it lies inside a loop
                 ctx.ob('C08.2', f, 'seq-bound-in-loop:' + nm, any(f.in_loop(h[0]) for h in hits), 'the comparison sits inside the scan loop', line=hits[0][1])
-    ctx.floor('C08.2', 'seq-bound parameters in context_compiler', n, 4)
+    ctx.floor('C08.2', 'seq-bound parameters in context_compiler', n, 3)
+    # every helper that a compile function hands the thread's events to must cut at a seq bound:
+    # discovered from the call sites (argument derived from the request's `continuity_events`)
+    scanners = {}
+    for c in COMPILERS:
+        cf = P.fn(c)
+        for s2 in cf.sites():
+            if not s2.callee.startswith('ripd::context_compiler::') or s2.callee not in P.fns:
+                continue
+            for a in s2.args:
+                o = cf.origin(a, through_calls=(r'::deref$', r'::as_ref$', r'::as_slice$'))
+                if o[0] == 'local' and any(isinstance(pp, dict) and pp.get('n') == 'continuity_events' for pp in o[2]):
+                    scanners.setdefault(s2.callee, s2)
+    ctx.floor('C08.2', 'helpers scanning the thread events', len(scanners), 3)
+    for sp in sorted(scanners):
+        g = P.fns[sp]
+        ctx.touch(g)
+        hits = []
+        for bi in g.reachable():
+            for st in g.blocks[bi]['s']:
+                rv = st.get('rv')
+                if rv and rv['k'] == 'bin' and rv['op'] in ('Le', 'Lt', 'Ge', 'Gt'):
+                    for o in rv['a']:
+                        src = g.origin(o)
+                        if src[0] == 'local' and any(isinstance(pp, dict) and pp.get('n') == 'seq' and pp.get('o') == 'rip_kernel::Event' for pp in src[2]) and g.in_loop(bi):
+                            hits.append(st.get('ln'))
+        ctx.ob('C08.2', g, 'thread-scan-cut-at-seq', bool(hits), '%s walks the thread events and %s' % (sp.rsplit('::', 1)[-1], 'compares Event.seq with a bound inside the loop' if hits else
+               'NEVER compares Event.seq with a cut bound: frames appended after the cut point can reach the bundle'), line=hits[0] if hits else g.line)
 
     # ---------------------------------------------------------------- C08.3
     uses = 0
